@@ -1,0 +1,167 @@
+//go:build verif
+
+package goatlang
+
+// Verification hooks, compiled only with -tags verif. They are observation
+// points and accessors; the monitors that interpret them live outside this
+// repository.
+
+// VerifObserver receives VM events. All methods are called synchronously on
+// the goroutine running the VM. An observer may panic to abort the run; the
+// VM's own recover turns that into an ordinary run error.
+type VerifObserver interface {
+	// Top is called when run/Func start executing on a fresh stack.
+	Top(v *VM, slots int)
+	// End is called when the top-level exec of run/Func returned normally.
+	End(v *VM)
+	// Step is called before every instruction is dispatched.
+	Step(v *VM)
+	// Enter is called after a script function's frame is set up.
+	Enter(v *VM, args, rets, slots int)
+	// Leave is called when a script function's body returned, before the
+	// frame is torn down. topN is the stack length right after frame set-up.
+	Leave(v *VM, topN, rets int)
+}
+
+type verifGlobals struct {
+	obs   VerifObserver
+	noOpt bool
+}
+
+type verifVM struct {
+	data any
+}
+
+func verifStep(v *VM) {
+	if o := v.globals.verif.obs; o != nil {
+		o.Step(v)
+	}
+}
+func verifTop(v *VM, slots int) {
+	if o := v.globals.verif.obs; o != nil {
+		o.Top(v, slots)
+	}
+}
+func verifEnd(v *VM) {
+	if o := v.globals.verif.obs; o != nil {
+		o.End(v)
+	}
+}
+func verifEnter(v *VM, args, rets, slots int) {
+	if o := v.globals.verif.obs; o != nil {
+		o.Enter(v, args, rets, slots)
+	}
+}
+func verifLeave(v *VM, topN, rets int) {
+	if o := v.globals.verif.obs; o != nil {
+		o.Leave(v, topN, rets)
+	}
+}
+func verifNoOptimize(c *compiler) bool { return c.Globals.verif.noOpt }
+
+// VerifSetOptimize switches the peephole pass for everything compiled
+// against this VM's globals from now on.
+func (v *VM) VerifSetOptimize(on bool) { v.globals.verif.noOpt = !on }
+
+// VerifObserve installs (or with nil removes) the observer for every VM
+// stack that shares this VM's globals.
+func (v *VM) VerifObserve(o VerifObserver) { v.globals.verif.obs = o }
+
+// Per-stack scratch slot for the observer.
+func (v *VM) VerifData() any     { return v.verif.data }
+func (v *VM) VerifSetData(d any) { v.verif.data = d }
+
+// Accessors on the running VM, valid inside observer callbacks.
+func (v *VM) VerifDepth() int   { return len(v.stack) }
+func (v *VM) VerifBase() int    { return v.frame.BaseN }
+func (v *VM) VerifPC() int      { return v.frame.N }
+func (v *VM) VerifCodeLen() int { return len(v.frame.Codes) }
+
+// VerifCodeID identifies the code slice of the running frame.
+func (v *VM) VerifCodeID() any {
+	if len(v.frame.Codes) == 0 {
+		return nil
+	}
+	return &v.frame.Codes[0]
+}
+
+// VerifIns returns the instruction at index i of the running frame.
+func (v *VM) VerifIns(i int) (op string, a, b, c int) {
+	ins := &v.frame.Codes[i]
+	return ins.Code.String(), int(ins.A), int(ins.B), int(ins.C)
+}
+
+// VerifInsPos renders the source position of instruction i of the running frame.
+func (v *VM) VerifInsPos(i int) string { return v.frame.Codes[i].Pos.String(v.globals) }
+
+// VerifStack returns the value at absolute stack index i.
+func (v *VM) VerifStack(i int) Value { return v.stack[i] }
+
+// VerifSetStack overwrites the value at absolute stack index i (used to force
+// branch conditions).
+func (v *VM) VerifSetStack(i int, val Value) { v.stack[i] = val }
+
+// VerifBacktraceLen is the number of active call-site positions.
+func (v *VM) VerifBacktraceLen() int { return len(v.backtrace) }
+
+// VerifSplit exposes the operand packing used by FUNC, ITER and FASTCALLATTR.
+func VerifSplit(x int) (int, int) { a, b := splitParams(reg(x)); return int(a), int(b) }
+
+// VerifRaw exposes the three words of a Value for bit-identity comparisons.
+func VerifRaw(x Value) (t int, num float64, obj any) { return int(x.t), x.num, x.value }
+
+// VerifTypeOf renders the full dynamic type of a value.
+func (v *VM) VerifTypeOf(x Value) string { return x.t.str(v.globals) }
+
+// VerifMapState returns the ordered internal key list of a script map and the
+// number of live entries.
+func VerifMapState(m Value) (keys []Value, live int, ok bool) {
+	switch t := m.value.(type) {
+	case *stringMap:
+		for _, k := range t.keys {
+			keys = append(keys, String(k))
+		}
+		return keys, len(t.data), true
+	case *numericMap:
+		for _, k := range t.keys {
+			keys = append(keys, Value{t: t.keyType, num: k})
+		}
+		return keys, len(t.data), true
+	}
+	return nil, 0, false
+}
+
+// VerifIntMap exposes the field table implementation.
+type VerifIntMap struct{ m intMap }
+
+func NewVerifIntMap(alloc int) *VerifIntMap    { return &VerifIntMap{m: newIntMap(alloc)} }
+func (m *VerifIntMap) Set(k int, v Value)      { m.m.Set(k, v) }
+func (m *VerifIntMap) Assign(k int, v Value)   { m.m.Assign(k, v) }
+func (m *VerifIntMap) Get(k int) (Value, bool) { return m.m.Get(k) }
+func (m *VerifIntMap) Delete(k int)            { m.m.Delete(k) }
+func (m *VerifIntMap) Len() int                { return m.m.Len() }
+func (m *VerifIntMap) Copy() *VerifIntMap      { return &VerifIntMap{m: m.m.Copy()} }
+func (m *VerifIntMap) Geometry() (size, total, min, max int) {
+	return len(m.m.pairs), m.m.total, m.m.min, m.m.max
+}
+func VerifIntMapHash(k int) int { return intMapHash(k) }
+
+// Walk calls f for every slot of the table, occupied or not.
+func (m *VerifIntMap) Walk(f func(slot, distance, key int, value Value)) {
+	for i, p := range m.m.pairs {
+		f(i, p.distance, p.key, p.value)
+	}
+}
+
+// VerifStructTable returns the field table of a struct value or type object.
+func VerifStructTable(s Value) (fields *VerifIntMap, methods *VerifIntMap, order []string, ok bool) {
+	t, isStruct := s.value.(*structT)
+	if !isStruct {
+		return nil, nil, nil, false
+	}
+	fields = &VerifIntMap{m: t.Fields}
+	if t.Methods != nil {
+		methods = &VerifIntMap{m: *t.Methods}
+	}
+	return fields, methods, t.Order, true
+}
